@@ -86,8 +86,8 @@ def optClass (name : String) : Option Int → String
     if v = 0 then s!"opt-{name}-zero"
     else if v < 0 then s!"opt-{name}-negative"
     else if v < 1000 then s!"opt-{name}-subsecond"
-    else if v % 1000 ≠ 0 then s!"opt-{name}-fractional-seconds"
     else if v ≥ 30 * 24 * 3600 * 1000 then s!"opt-{name}-very-large"
+    else if v % 1000 ≠ 0 then s!"opt-{name}-fractional-seconds"
     else s!"opt-{name}-whole-seconds"
 
 def optJ (toks : List String) : Option Nat :=
@@ -314,6 +314,17 @@ def coverOf (c : Cfg) (s s' : St) (op : Op) (o : Out) : List String :=
   let mn := if occ.length ≥ 2 then ["state-entries-on-several-nodes"] else []
   f ++ r ++ t ++ g ++ d ++ st ++ delCover ++ readCover ++ mn
 
+/-- the same state with its three maps rebuilt as finite tables over the driver's universe (every key and node
+the parser admits lies inside it): the model's maps are closures that grow with every update (`upd`, `delKeys`,
+`expire` wrap the previous map), so without this a lookup after `tick 3600` walks 3600 closures. -/
+def compact (s : St) : St :=
+  let tbl := slotUniverse.filterMap fun k => (s.cache k).map fun e => (k, e)
+  let rows := (List.range (maxKeyIdx + 1)).filterMap fun pk => (s.rows pk).map fun v => (pk, v)
+  let idx := (List.range (maxKeyIdx + 1)).filterMap fun a => (s.idx a).map fun v => (a, v)
+  { s with cache := fun k => (tbl.find? (·.1 = k)).map (·.2),
+           rows := fun pk => (rows.find? (·.1 = pk)).map (·.2),
+           idx := fun a => (idx.find? (·.1 = a)).map (·.2) }
+
 /-- observation of a concurrent read, reduced to the shape of a sequential one for the monitor. -/
 def concObs (toks : List String) : List String :=
   (toks.filter fun t => !(t.startsWith "inflight=" || t.startsWith "distinct=")).map
@@ -373,7 +384,7 @@ def runSection (r : Report) (sec : Section) : Report := Id.run do
         for v in m.2.1 do r := r.violation sec.idx l.idx s!"{v} op=[{joinSp l.op}] impl=[{impl}]"
         for t in m.2.2 do r := r.addCover t
         mon := m.1
-      s := res.1
+      s := compact res.1
   return r
 
 def driver (secs : List Section) : Report := secs.foldl runSection {}
